@@ -311,6 +311,10 @@ func (r ARec) QualBytes() []byte {
 	for i := range q {
 		q[i] = byte(mix(r.SeqSeed^0xabc+uint64(i)) % 94)
 	}
+	if len(q) == 1 && q[0] == 9 {
+		// a single quality of 9 is spelled "*", which SAM text cannot tell from "absent"
+		q[0] = 10
+	}
 	return q
 }
 
@@ -712,9 +716,6 @@ func AuxGen(tag string, o AuxOpt) *rapid.Generator[AAux] {
 		case 'H':
 			n := rapid.IntRange(minLen, 6).Draw(t, "hn")
 			a.S = strings.ToUpper(hex.EncodeToString(rapid.SliceOfN(rapid.ByteRange(1, 255), n, n).Draw(t, "h")))
-			if rapid.Bool().Draw(t, "lower") {
-				a.S = strings.ToLower(a.S)
-			}
 		case 'B':
 			a.Sub = rapid.SampledFrom([]byte("cCsSiIf")).Draw(t, "sub")
 			n := rapid.IntRange(minLen, 8).Draw(t, "bn")
